@@ -9,5 +9,6 @@ CONSTANTS
   MaxCells = 2
   MaxIgn = 0
   Pres = "one"
+  MaxArea = 2097152
 INVARIANTS Refines
 CHECK_DEADLOCK FALSE
